@@ -16,6 +16,10 @@ dedup      = canonical key (plain, base style, _length, span list with empty spa
              reference); per shard
 strata     = A  every initial state x the FULL event menu (depth 1)
              B  a smaller initial set x FULL x FULL (depth 2)
+             L  aliasing: every stratum-A initial state x deriving event x mutating
+                event x {mutate the derived text, mutate the original}: the other
+                side must stay observably unchanged (keys alias/<derive>/<mutate>/
+                original-changed | derived-changed)
              D  16 hand-picked diverse seeds, CORE menu, BFS to depth 4 (quick) /
                 5 and 6 (thorough), then deterministic chain extensions of the
                 deepest states up to history length 12
@@ -788,6 +792,166 @@ def explore(inits, menus, res, chain_extra=0, chain_states=0, first_filter=None)
     res.count("transitions", transitions)
 
 
+# ---------------------------------------------------------------------------- aliasing clause
+# A Text derived from another one must share no mutable state with it: after deriving, editing the
+# derived object must leave the original unchanged and editing the original must leave the derived
+# object unchanged (plain, len(), rendered per-character styles). A single-object history cannot see
+# this: each object on its own looks right immediately after each operation.
+DERIVE = [
+    ["copy"], ["add", "s:x"], ["add", "P"], ["radd", "P"], ["rappend", "P"], ["rappend_text", "Q"],
+    ["assemble", ["@", ["x", "red"], "y"], "italic"],
+    ["getitem", 0], ["getitem", -1],
+    ["slice", 1, None], ["slice", None, -1], ["slice", -9, 9],
+    ["split", "\n", False, False], ["split", " ", True, False],
+    ["divide", []], ["divide", [1]],
+    ["join_sep", ["P", "Q"]], ["join_elem", "D", ["@", "P"]], ["join_elem", "N", ["@"]],
+    ["fit", 2], ["repr_hl_call"], ["rcopy_styles"],
+]
+MUTATE = [
+    ["stylize", "red", 0, None], ["pad_left", 1, "-"], ["pad_right", 2, "-"],
+    ["append", "y", "red"], ["append_T", "P"], ["append_tokens", [["t", "red"], ["u", None]]],
+    ["right_crop", 1], ["truncate", 1, "crop", False], ["align", "center", 5, " "],
+    ["set_plain", "z"], ["expand_tabs", 2], ["hl_words", ["a", "x"], "blue", True], ["copy_styles"],
+]
+
+
+def _derive(t, ev):
+    """Runs a deriving event directly on `t` (no clone in between: aliasing must survive)."""
+    if ev[0] == "rcopy_styles":          # t is the SOURCE of copy_styles
+        from rich.text import Text
+        other = Text("?" * len(t.plain))
+        other.copy_styles(t)
+        return [other]
+    return apply_real(t, ev)
+
+
+def _snap(t):
+    try:
+        n = len(t)
+    except Exception as e:
+        n = "len() raises %s" % type(e).__name__
+    try:
+        o = tuple(observe(t))
+    except Exception as e:
+        o = "render() raises %s: %s" % (type(e).__name__, e)
+    return (t.plain, n, o)
+
+
+def _snap_diff(a, b):
+    if a[0] != b[0]:
+        return "plain %r -> %r" % (a[0], b[0])
+    if a[1] != b[1]:
+        return "len %r -> %r (plain %r)" % (a[1], b[1], a[0])
+    if isinstance(a[2], str) or isinstance(b[2], str):
+        return "render %r -> %r" % (a[2], b[2])
+    for i, (x, y) in enumerate(zip(a[2], b[2])):
+        if x != y:
+            return "plain %r: character %d %r rendered %r before and %r after" % (a[0], i, x[0], x[1], y[1])
+    return "render length %d -> %d" % (len(a[2]), len(b[2]))
+
+
+def _cheap(t):
+    return (t.plain, t._length, tuple(t._spans))
+
+
+def alias_derive(t0, dev):
+    """-> None when the deriving event does not apply (IndexError) | (orig, before, piece_snaps, violation)
+    `orig` is a private clone of t0 on which `dev` has been run once."""
+    orig = clone(t0)
+    before = _snap(orig)
+    try:
+        pieces = _derive(orig, dev)
+    except IndexError:
+        return None
+    after = _snap(orig)
+    bad = None
+    if after != before:
+        bad = ("alias/%s/none/original-changed" % dev[0], "deriving alone changed the original: " + _snap_diff(before, after))
+    return orig, before, [_snap(p) for p in pieces], bad
+
+
+def alias_check(t0, dev, mev, direction, ctx=None):
+    """t0: pristine Text (never modified here). Derives with `dev`, then applies the mutator `mev`
+    to every derived piece (direction "derived") or to the original (direction "original") and
+    requires the other side to be observably unchanged (plain, len(), rendered styles).
+    ctx = alias_derive(t0, dev) may be passed in to share work between mutators.
+    -> ("n/a",) | ("ok", nontrivial) | ("violation", key, detail)"""
+    if ctx is None:
+        ctx = alias_derive(t0, dev)
+    if ctx is None:
+        return ("n/a",)
+    orig, before, piece_snaps, bad = ctx
+    if bad:
+        return ("violation", bad[0], bad[1])
+    nontrivial = False
+    try:
+        if direction == "derived":
+            # `orig` is unchanged so far (checked after every use), so it can be derived from again
+            for p in _derive(orig, dev):
+                c0 = _cheap(p)
+                apply_real(p, mev)
+                nontrivial = nontrivial or _cheap(p) != c0
+                now = _snap(orig)
+                if now != before:
+                    return ("violation", "alias/%s/%s/original-changed" % (dev[0], mev[0]),
+                            "after %r on the derived text %r the original changed: %s" % (mev, c0[0], _snap_diff(before, now)))
+        else:
+            o2 = clone(t0)
+            pieces = _derive(o2, dev)
+            c0 = _cheap(o2)
+            apply_real(o2, mev)
+            nontrivial = _cheap(o2) != c0
+            for p, pb in zip(pieces, piece_snaps):
+                now = _snap(p)
+                if now != pb:
+                    return ("violation", "alias/%s/%s/derived-changed" % (dev[0], mev[0]),
+                            "after %r on the original %r the derived text changed: %s" % (mev, before[0], _snap_diff(pb, now)))
+    except Exception as e:
+        return ("violation", _crash_key(e), "%s: %s (alias clause: %r then %r on the %s)" % (type(e).__name__, e, dev, mev, direction))
+    return ("ok", nontrivial)
+
+
+def explore_alias(inits, res):
+    seen = set()
+    for desc in inits:
+        i0 = initial(desc)
+        res.count("alias_initial_states_built")
+        if i0[0] == "violation":
+            continue                      # reported by stratum A
+        _, t0, r0, _taint = i0
+        key = canon(t0, r0)
+        if key in seen:
+            continue
+        seen.add(key)
+        res.count("alias_initial_states")
+        if deadline_passed():
+            res.capped = True
+            break
+        for dev in DERIVE:
+            ctx = alias_derive(t0, dev)
+            if ctx is None:
+                res.count("alias_derive_not_applicable")
+                continue
+            for mev in MUTATE:
+                for direction in ("derived", "original"):
+                    out = alias_check(t0, dev, mev, direction, ctx)
+                    res.evaluations += 1
+                    res.count("alias_checks")
+                    if out[0] == "violation":
+                        res.violate(out[1], {"alias": {"init": desc, "derive": dev, "mutate": mev, "direction": direction}}, out[2])
+                        res.sig(("alias", dev[0], mev[0], direction, "violation"))
+                        ctx = alias_derive(t0, dev)      # the shared original may be spoilt now
+                        if ctx is None or ctx[3]:
+                            break
+                    else:
+                        res.sig(("alias", dev[0], mev[0], direction, out[1]), nontrivial=out[1])
+                else:
+                    continue
+                break
+    if len(res.samples) < 1 and inits:
+        res.sample({"alias": {"init": inits[-1], "derive": DERIVE[0], "mutate": MUTATE[1], "direction": "derived"}})
+
+
 # ---------------------------------------------------------------------------- initial states
 def _strings(maxlen, minlen=0):
     for L in range(minlen, maxlen + 1):
@@ -860,6 +1024,7 @@ def plan(tier, seed):
             for j in range(2):
                 shards.append({"st": "D", "seed": si, "j": j, "m": 2, "depth": 4})
         shards += [{"st": "B", "i": i, "n": 8} for i in range(8)]
+        shards += [{"st": "L", "i": i, "n": 48} for i in range(48)]
         shards += [{"st": "A", "i": i, "n": 48} for i in range(48)]
     else:
         m = len(CORE)
@@ -871,6 +1036,7 @@ def plan(tier, seed):
                 for j in range(5):
                     shards.append({"st": "D", "seed": si, "j": j, "m": 5, "depth": 5})
         shards += [{"st": "B", "i": i, "n": 57} for i in range(57)]
+        shards += [{"st": "L", "i": i, "n": 192} for i in range(192)]
         shards += [{"st": "A", "i": i, "n": 192} for i in range(192)]
     return shards
 
@@ -886,12 +1052,16 @@ def run_shard(sh, tier, seed):
     elif st == "B":
         inits = [d for i, d in _stratum_inits("B", tier) if i % sh["n"] == sh["i"]]
         explore(inits, [FULL, FULL], res)
+    elif st == "L":
+        inits = [d for i, d in _stratum_inits("A", tier) if i % sh["n"] == sh["i"]]
+        explore_alias(inits, res)
     elif st == "D":
         D = sh["depth"]
         explore([SEEDS[sh["seed"]]], [CORE] * D, res, chain_extra=12 - D,
                 chain_states=40 if tier == "quick" else 200, first_filter=(sh["j"], sh["m"]))
     res.count("cpu_s", round(time.process_time() - c0, 2))
-    res.count("max_depth_core_bfs" if st == "D" else "max_depth_full_menu", sh.get("depth") or (2 if st == "B" else 1))
+    if st != "L":
+        res.count("max_depth_core_bfs" if st == "D" else "max_depth_full_menu", sh.get("depth") or (2 if st == "B" else 1))
     return res
 
 
@@ -909,11 +1079,16 @@ def describe(tier, seed, res):
                  "characters are not enabled. Each piece returned by split/divide/fit is a successor. A violating "
                  "transition is reported and not extended. Non-trivial = the event changed the reference state or "
                  "produced pieces; distinct = distinct outcome signatures (event, argument class, pieces, changed, "
-                 "styled, wild, tainted)." % (
+                 "styled, wild, tainted). Stratum L (aliasing): every stratum-A initial state x %d deriving events (copy, +, "
+                 "reversed + / append / append_text with the text as argument, Text.assemble with the text as part, text[i], "
+                 "slices, split / divide / fit pieces, join as separator and as element, Highlighter.__call__, copy_styles "
+                 "source) x %d mutating events x 2 directions: mutate every derived piece -> the original must be observably "
+                 "unchanged (plain, len(), rendered per-character styles), mutate the original -> every derived piece must be "
+                 "unchanged; the derivation runs on the object itself (no clone in between)." % (
                      "2 (+ length 3 with <=1 span, base none, Text() only)" if quick else "3", len(FULL),
                      "strings <=1 with <=2 spans" if quick else "strings <=2 with <=1 span",
                      len(CORE), "4" if quick else "5 (6 from seeds %s, one shard per first event)" % (DEEP_SEEDS,),
-                     len(SEEDS), 40 if quick else 200, MAXLEN)),
+                     len(SEEDS), 40 if quick else 200, MAXLEN, len(DERIVE), len(MUTATE))),
         "assumptions": [
             "deduplication is per shard: `states` and `transitions` are sums over shards (states is an upper bound on the number of distinct canonical states)",
             "characters invented by an operation (ellipsis, space for a halved wide character, tab-expansion spaces, text written through the plain setter, characters styled by ReprHighlighter) carry no style obligation; padding must show the base style only",
@@ -929,10 +1104,19 @@ def describe(tier, seed, res):
             "max_depth": c.get("max_depth", 0),
             "frontier_at_depth_bound": c.get("frontier_at_depth_bound", 0),
             "states_revalidated_by_replay": c.get("states_revalidated_by_replay", 0),
+            "alias_checks": c.get("alias_checks", 0),
+            "alias_initial_states": c.get("alias_initial_states", 0),
             "cpu_seconds_all_shards": round(c.get("cpu_s", 0), 1),
         },
     }
 
 
 def replay(case):
+    if "alias" in case:
+        a = case["alias"]
+        i0 = initial(a["init"])
+        if i0[0] == "violation":
+            return [(i0[1], i0[2])]
+        out = alias_check(i0[1], a["derive"], a["mutate"], a["direction"])
+        return [(out[1], out[2])] if out[0] == "violation" else []
     return run_case(case)
